@@ -11,77 +11,7 @@ from pyuverif.report import REPO, VERIF
 from pyuverif.registry import CHECKS
 
 
-def pyx_funcs(repo, rel):
-    from pyuverif.cymodel import load_module, walk, X
-    mod = rel[len("src/"):-len(".pyx")].replace("/", ".")
-    m = load_module(repo, mod)
-    out = []
-    for f in m.funcs.values():
-        locs = set(f.locals)
-        for s in walk(f.body):
-            if isinstance(s, X) and s.k == "for":
-                for n in walk(s.a[0]):
-                    if isinstance(n, X) and n.k == "name":
-                        locs.add(n.a[0])
-            if isinstance(s, X) and s.k == "assign":
-                for t in s.a[0]:
-                    for n in ([t] if t.k == "name" else (t.a[0] if t.k == "tuple" else [])):
-                        if isinstance(n, X) and n.k == "name":
-                            locs.add(n.a[0])
-        params = {n for n, t in f.args}
-        # module-level names must keep their names
-        locs -= set(m.funcs) | set(m.externs) | set(m.globals) | set(m.ctypedefs)
-        out.append((f.name, f.line, locs, params))
-    return out
-
-
-def c_funcs(repo, rel):
-    from pyuverif.cmodel import load_c
-    from pyuverif.cymodel import walk, X
-    d = load_c(repo, rel)
-    fs = sorted(d["funcs"].values(), key=lambda f: f.line)
-    nlines = len(open(os.path.join(repo, rel)).read().splitlines())
-    out = []
-    for i, f in enumerate(fs):
-        end = fs[i + 1].line - 1 if i + 1 < len(fs) else nlines
-        locs = set()
-        for s in walk(f.body):
-            if isinstance(s, X) and s.k == "cdecl":
-                for (n, t, init) in s.a[0]:
-                    locs.add(n)
-        out.append((f.name, f.line, end, locs))
-    return out
-
-
-def make_twin(repo, dst, files=None, only_file=None):
-    mutants._scratch(dst, repo)
-    stats = {}
-    for p in sorted(glob.glob(os.path.join(dst, "src/pyunicorn/**/*"), recursive=True)):
-        rel = os.path.relpath(p, dst)
-        if only_file and rel != only_file:
-            continue
-        if files and not any(f in rel for f in files):
-            continue
-        if rel.endswith(".py"):
-            src = open(p, encoding="utf-8").read()
-            new, n = twins.rename_locals_py(src)
-            if n:
-                ast.parse(new)
-                open(p, "w", encoding="utf-8").write(new)
-            stats[rel] = n
-        elif rel.endswith(".pyx"):
-            src = open(p, encoding="utf-8").read()
-            new, n = twins.rename_locals_pyx(src, pyx_funcs(repo, rel))
-            if n:
-                open(p, "w", encoding="utf-8").write(new)
-            stats[rel] = n
-        elif rel.endswith(".c") and "src_" in rel:
-            src = open(p, encoding="utf-8").read()
-            new, n = twins.rename_locals_c(src, c_funcs(repo, rel))
-            if n:
-                open(p, "w", encoding="utf-8").write(new)
-            stats[rel] = n
-    return stats
+from pyuverif.twins import make_twin
 
 
 def run_checks(repo, props):
